@@ -445,6 +445,23 @@ func c01FileClause2(x, enc []byte, f *mp4.File) (string, string) {
 	if trakRegroup(x) {
 		return "", "" // listed order normalisation (moov.trak-regroup)
 	}
+	// a top-level mdat whose declared (32- or 64-bit) size exceeds the bytes present: the known truncated-mdat finding
+	for pos := 0; pos+8 <= len(x); {
+		usz := uint64(binary.BigEndian.Uint32(x[pos:]))
+		if usz == 1 && pos+16 <= len(x) {
+			usz = binary.BigEndian.Uint64(x[pos+8:])
+		}
+		if usz < 8 {
+			break
+		}
+		if usz > uint64(len(x)-pos) {
+			if string(x[pos+4:pos+8]) == "mdat" {
+				return "truncated mdat accepted by the SliceReader path and re-encoded shorter", fmt.Sprintf("declared size %d, %d bytes present (input %d bytes, output %d bytes)", usz, len(x)-pos, len(x), len(enc))
+			}
+			break
+		}
+		pos += int(usz)
+	}
 	if len(x) != len(enc) {
 		// listed normalisation (header.largesize->32-bit): a top-level box other than mdat with a 64-bit header
 		// is written with a 32-bit header
@@ -456,12 +473,16 @@ func c01FileClause2(x, enc []byte, f *mp4.File) (string, string) {
 		// which top-level box does the input end in?
 		pos := 0
 		for pos+8 <= len(x) {
-			sz := int(binary.BigEndian.Uint32(x[pos:]))
-			if sz == 1 && pos+16 <= len(x) {
-				sz = int(binary.BigEndian.Uint64(x[pos+8:]))
+			usz := uint64(binary.BigEndian.Uint32(x[pos:]))
+			if usz == 1 && pos+16 <= len(x) {
+				usz = binary.BigEndian.Uint64(x[pos+8:])
 			}
-			if sz < 8 {
+			if usz < 8 {
 				break
+			}
+			sz := len(x) + 1 // a size beyond the file (also sizes >= 2^63)
+			if usz <= uint64(len(x)) {
+				sz = int(usz)
 			}
 			if pos+sz > len(x) {
 				if string(x[pos+4:pos+8]) == "mdat" {
